@@ -115,7 +115,7 @@ func c16Num(rng *rand.Rand) string {
 		if base == 0 {
 			return "z"
 		}
-		return c04ValTok([]float64{1e21, 1e-7, 1.5, -2.25}[rng.Intn(4)], true)
+		return c04ValTok([]float64{1e21, 1e-7, 1.5, -2.25, 1e19, 2e19, 9223372036854775808, 1e19}[rng.Intn(8)], true) // incl. whole values beyond the int64 range
 	case 7:
 		if base < 1000 {
 			return "f:" + strconv.FormatInt(base, 10)
